@@ -1,6 +1,7 @@
 package main
 
 import (
+	"encoding/json"
 	"flag"
 	"fmt"
 	"os"
@@ -26,6 +27,7 @@ func main() {
 	dump := flag.String("dump", "", "dump rendered SSA facts/calls of functions whose key matches this regexp")
 	noEvidence := flag.Bool("no-evidence", false, "do not write evidence/reports (used by the mutant self-test)")
 	list := flag.Bool("list", false, "list function keys")
+	selftest := flag.String("selftest", "", "JSON file with mutant self-test results to merge into the evidence (thorough tier)")
 	flag.Parse()
 
 	defer func() {
@@ -86,7 +88,13 @@ func main() {
 				_ = os.WriteFile(vd+"/known_findings.txt", b, 0o644)
 			}
 		}
-		if r := c.Finish(vd, nil); r > rc {
+		var st map[string]any
+		if *selftest != "" {
+			if b, err := os.ReadFile(*selftest); err == nil {
+				_ = json.Unmarshal(b, &st)
+			}
+		}
+		if r := c.Finish(vd, st); r > rc {
 			rc = r
 		}
 	}
